@@ -847,8 +847,9 @@ namespace via
           // then allow upto max_body_size_
           // The server can disconnect after it's finished sending the body
           std::ptrdiff_t rx_size(std::distance(iter, end));
-          if ((rx_size > 0) && (content_length == 0) &&
-              response_.headers().find(header_field::LC_CONTENT_LENGTH).empty())
+          bool no_content_length((rx_size > 0) && (content_length == 0) &&
+              response_.headers().find(header_field::LC_CONTENT_LENGTH).empty());
+          if (no_content_length)
             content_length = max_body_size_;
 
           // received buffer contains more than the required data
@@ -856,6 +857,13 @@ namespace via
                                   static_cast<std::ptrdiff_t>(body_.size()));
           if (rx_size > required)
           {
+              // a body without a content length is larger than max_body_size_
+              if (no_content_length)
+              {
+                clear();
+                return Rx::INVALID;
+              }
+
               ForwardIterator next(iter + required);
               body_.insert(body_.end(), iter, next);
               iter = next;
